@@ -114,19 +114,6 @@ def main():
         head, _ = swap_ok_filter(head)
         open(p, "w").write(head + tail)
 
-    # ProguardRecord gets an explicit tag in the verification build: with the
-    # default niche layout the discriminant of the dataful variant (Method) is
-    # read through a byte offset into nested fields and CBMC cannot constant-fold
-    # it; `repr(u8)` only changes the layout, not the semantics.
-    p = os.path.join(root, "src/mapping.rs")
-    text = open(p).read()
-    m = re.search(r"^pub enum ProguardRecord<", text, re.M)
-    if m:
-        text = text[:m.start()] + "#[cfg_attr(kani, repr(u8))]\n" + text[m.start():]
-        open(p, "w").write(text)
-    else:
-        print("INSTRUMENT-NOTE: enum ProguardRecord not found; builder harnesses will be slow")
-
     # any other use of std containers in non-test code is reported
     other = []
     for dirpath, _, files in os.walk(os.path.join(root, "src")):
@@ -158,6 +145,7 @@ def main():
         fh.write(
             f'\n{CFG_ON}\n#[path = "{KROOT}/support/mod.rs"]\npub(crate) mod verif_support;\n'
         )
+        # with the guard off: `.verif_ok_only()` is literally `filter_map(Result::ok)`
         fh.write(
             f"\n{CFG_OFF}\npub(crate) mod verif_support {{\n    pub mod util {{\n"
             "        pub trait OkOnlyExt: Iterator + Sized {\n"
